@@ -22,6 +22,10 @@ def c18Kind (s : String) : Option C18.LayerKind :=
   else if s = "ctls" then some .clientTls else if s = "stls" then some .serverTls else if s = "http" then some .http
   else if s = "tcp" then some .other else none
 
+def c18KindName : C18.LayerKind → String
+  | .httpProxy => "hp" | .httpUpstreamProxy => "hup" | .otherMode => "mode" | .clientTls => "ctls"
+  | .serverTls => "stls" | .http => "http" | .other => "tcp"
+
 def c18Step (line : String) : String :=
   match fields line with
   | ["cb", c, s, h, o] =>
@@ -44,6 +48,10 @@ def c18Step (line : String) : String :=
       let r := C18.nestedSession h oo io prefs eager
       c18Show r.1 ++ " " ++ c18Show r.2.1 ++ " " ++ c18Show r.2.2
     | _, _, _, _, _ => "bad-op"
+  | ["xstack", mode, tls] =>
+    match c18Kind mode, c18Bool tls with
+    | some m, some t => ",".intercalate ((C18.explicitProxyStack m t).map c18KindName)
+    | _, _ => "bad-op"
   | ["pin", kinds, ca] =>
     match (if kinds = "nil" then some [] else (kinds.splitOn ",").mapM c18Kind), c18Opt ca with
     | some ks, some ca => c18Show (C18.startClientPin ks ca)
